@@ -153,8 +153,8 @@ func c01r1(c *core.Ctx) {
 			if rp := m.AccessPath(f, call.Args[0]); rp.Deref && rp.Has("storage.entities") {
 				clobbered := false
 				for _, s := range list[idx+1:] {
-					if s == ast.Stmt(ifStmt) {
-						break
+					if s == ast.Stmt(ifStmt) || list[idx] == ast.Stmt(ifStmt) {
+						break // (the swap-remove may itself be the condition of the fix-up: nothing lies between)
 					}
 					ast.Inspect(s, func(x ast.Node) bool {
 						switch x.(type) {
@@ -346,40 +346,28 @@ func c01r2(c *core.Ctx) {
 					if !p.Has("storage.entities") || p.Last() != "storage.entities" {
 						continue
 					}
-					var lit *ast.CompositeLit
+					var fields map[string]ast.Expr
 					appendForm := false
-					litOf := func(e ast.Expr) *ast.CompositeLit {
-						for _, x := range exprChain(m, f, e, 0) {
-							if cl, ok := ast.Unparen(x).(*ast.CompositeLit); ok {
-								return cl
-							}
-						}
-						return nil
-					}
 					switch r := ast.Unparen(as.Rhs[i]).(type) {
 					case *ast.CallExpr:
 						if m.IsBuiltin(r, "append") && len(r.Args) == 2 {
-							lit = litOf(r.Args[1])
+							fields = valueFields(m, f, r.Args[1])
 							appendForm = true
 						}
 					default:
-						lit = litOf(r)
+						fields = valueFields(m, f, r)
 					}
-					if lit == nil {
+					if fields == nil {
 						continue
 					}
 					var tab, row string
 					var tabExpr ast.Expr
-					for _, e := range lit.Elts {
-						if kv, ok := e.(*ast.KeyValueExpr); ok {
-							switch litFieldKey(m, kv) {
-							case "entityIndex.table":
-								tab = m.ExprString(kv.Value)
-								tabExpr = kv.Value
-							case "entityIndex.row":
-								row = m.ExprString(kv.Value)
-							}
-						}
+					if v, ok := fields["entityIndex.table"]; ok {
+						tab = m.ExprString(v)
+						tabExpr = v
+					}
+					if v, ok := fields["entityIndex.row"]; ok {
+						row = m.ExprString(v)
 					}
 					if !appendForm {
 						ix, ok := ast.Unparen(l).(*ast.IndexExpr)
@@ -488,7 +476,7 @@ func moveSummaryOf(c *core.Ctx, g *core.Func) *moveSummary {
 		if e == nil {
 			return -1
 		}
-		id, ok := ast.Unparen(m.StripConv(e)).(*ast.Ident)
+		id, ok := ast.Unparen(m.StripConv(m.Inline(m.StripConv(e)))).(*ast.Ident)
 		if !ok {
 			return -1
 		}
@@ -521,38 +509,31 @@ func moveSummaryOf(c *core.Ctx, g *core.Func) *moveSummary {
 			if p.Last() != "storage.entities" {
 				continue
 			}
-			var lit *ast.CompositeLit
+			var fields map[string]ast.Expr
 			var entExpr ast.Expr
-			switch r := ast.Unparen(as.Rhs[i]).(type) {
-			case *ast.CompositeLit:
-				lit = r
+			if r, ok := ast.Unparen(as.Rhs[i]).(*ast.CallExpr); ok && m.IsBuiltin(r, "append") && len(r.Args) == 2 {
+				fields = valueFields(m, g, r.Args[1])
+			} else {
+				fields = valueFields(m, g, as.Rhs[i])
 				if ix, ok := ast.Unparen(l).(*ast.IndexExpr); ok {
 					if sel, ok := m.StripConv(ix.Index).(*ast.SelectorExpr); ok {
 						entExpr = sel.X
 					}
 				}
-			case *ast.CallExpr:
-				if m.IsBuiltin(r, "append") && len(r.Args) == 2 {
-					lit, _ = ast.Unparen(r.Args[1]).(*ast.CompositeLit)
-				}
 			}
-			if lit == nil {
+			if fields == nil {
 				continue
 			}
 			cur := iwT{e: -1, t: -1, r: -1}
-			for _, e := range lit.Elts {
-				if kv, ok := e.(*ast.KeyValueExpr); ok {
-					switch litFieldKey(m, kv) {
-					case "entityIndex.table":
-						if pi := par(kv.Value); pi >= 0 {
-							cur.t = pi
-						} else if sel, ok := ast.Unparen(kv.Value).(*ast.SelectorExpr); ok && fieldKeyOf(m, sel) == "table.id" {
-							cur.t, cur.viaID = par(sel.X), true
-						}
-					case "entityIndex.row":
-						cur.r = par(kv.Value)
-					}
+			if v, ok := fields["entityIndex.table"]; ok {
+				if pi := par(v); pi >= 0 {
+					cur.t = pi
+				} else if sel, ok := ast.Unparen(m.Inline(v)).(*ast.SelectorExpr); ok && fieldKeyOf(m, sel) == "table.id" {
+					cur.t, cur.viaID = par(sel.X), true
 				}
+			}
+			if v, ok := fields["entityIndex.row"]; ok {
+				cur.r = par(v)
 			}
 			if entExpr != nil {
 				cur.e = par(entExpr)
@@ -893,18 +874,12 @@ func c01r4(c *core.Ctx) {
 							}
 							switch p.Last() {
 							case "storage.entities":
-								if lit, ok := ast.Unparen(z.Rhs[i]).(*ast.CompositeLit); ok {
-									for _, e := range lit.Elts {
-										if kv, ok := e.(*ast.KeyValueExpr); ok {
-											switch litFieldKey(m, kv) {
-											case "entityIndex.table":
-												if chainIn(m, f, kv.Value, ids) {
-													tableOK = true
-												}
-											case "entityIndex.row":
-												rowWritten = true
-											}
-										}
+								if fields := valueFields(m, f, z.Rhs[i]); fields != nil {
+									if v, ok := fields["entityIndex.table"]; ok && chainIn(m, f, v, ids) {
+										tableOK = true
+									}
+									if _, ok := fields["entityIndex.row"]; ok {
+										rowWritten = true
 									}
 								}
 							case "entityIndex.table":
@@ -1187,7 +1162,7 @@ func c01r6(c *core.Ctx) {
 				continue
 			}
 			subject := fmt.Sprintf("%s: %s{...}", f.Name, cn.typ)
-			if ptrV != nil && pairedBuffer(m, f, bufV, ptrV) {
+			if ptrV != nil && (pairedBuffer(m, f, bufV, ptrV) || derivedFrom(m, f, ptrV, id.Name+"."+actualFieldName(m, cn.typ+"."+bp[0]), 0)) {
 				c.OK("C01/R6", subject, c.At(id.Pos()), "constructor derives the raw pointer from the buffer it stores")
 			} else {
 				c.Violation("C01/R6", subject, c.At(id.Pos()), fmt.Sprintf("%s: %s is constructed with a buffer but its raw pointer is not derived from that buffer", f.Name, cn.typ))
